@@ -202,7 +202,7 @@ func c18Drive(c *Case, lim *rate.Limiter, ts []int64) (grants []int64) {
 
 func runC18(r *Run) {
 	r.CaseTimeout = 120 * time.Second // the operator-level case bounds itself at 50 s and turns inconclusive
-	r.Rule = "(a) the rate.Limiter returned by the real CreateRateLimiter for random (I, B) — I from 1 ms to 5 s incl. values that are not a whole number of ms, B from 0 (= default 1) to 10 — driven through ReserveN(t,1).DelayFrom(t) with 20..80 (thorough 100) explicit request times on a millisecond grid in 7 arrival patterns (one burst, faster than I, slower than I, exactly I, bursts with gaps, mixed, random); every delay is compared with the integer model (tolerance 1 us) and the window bound B+ceil(T/I) is checked exactly on the limiter's own grant times for every window; unthrottled configurations (no settings, I = 0, I < 0) must never delay; a few cases with request times going backwards exercise the clamp and are checked against the skew bound B+ceil((T+S)/I). 35 % of these cases take the limiter not from CreateRateLimiter but from a HOOK: the same settings written in a hook configuration together with a random non-empty set of other bindings (onStartup, schedule, kubernetes, kubernetesValidating, kubernetesMutating, kubernetesCustomResourceConversion) and loaded by the real Hook.LoadConfig, whose h.RateLimiter is then driven (op line hookcfg; the bound must hold whatever the other bindings are). (b) settings blocks loaded through the real HookConfig.LoadAndValidate -> CreateRateLimiter -> Limit()/Burst(); (b') corpus: settings + each kind of other binding through Hook.LoadConfig. (c) wall-clock runs (2 quick, 8 thorough) of Hook.RateLimitWait from 1..3 goroutines (queues), start times measured with time.Now(), bound checked with a 40 ms allowance for timer lateness (runtime observation; inconclusive rather than failing when the scheduler was late). (d) ShellOperator.taskHandleHookRun itself (hooks loaded from a generated hooks directory through the real hook manager, `settings` in the hook's --config output) called for queued HookRun tasks from 1..3 goroutines; the hook script logs its own start time; the hook has a random set of other bindings (webhooks included) and every task is for an onStartup, a schedule or a kubernetes event; the bound is checked with a 120 ms allowance for process start-up (2 runs quick, 5 thorough, one of them unthrottled). (e) the operator's queues (5 corpus + 4 quick / 16 thorough runs): 1-2 generated hooks (the first with `settings`, the second with its own settings or none; half of the hooks ALSO have webhook bindings - kubernetesValidating / kubernetesMutating / kubernetesCustomResourceConversion - and 30 % an onStartup binding; for the admission bindings the real initValidatingWebhookManager installs the operator's admission handler and 1-2 admission requests per binding are answered through the real router -> op.taskHandler while the queues work: these executions are not queued and are not counted, the queued ones must keep the bound) with 1-2 schedule bindings in each of 1-3 queues (main and named ones, `queue:` in the hook configuration), schedule events (the real schedule callback of initHookManager) arriving as one burst, a steady stream or at random over ~2.5 intervals and added to the real named queues (NewNamedQueue with the operator's task handler, back-off shortened to 15-40 ms); some bindings FAIL their first 1-3 executions (without allowFailure: the queue retries the task; with allowFailure: no retry); hooks share queues. Every execution START is counted — retries and executions from all queues of the hook — from the time stamps the hook processes write; of each execution the harness knows an interval [lo, hi] containing its grant (lo = the later of: the first event of its binding was queued, the previous execution in the same queue started; hi = its own time stamp), and the bound is checked exactly on every window [lo_i, hi_j] (oracle boundiv; no assumption on process start-up times, S = 0 for a hook living in one queue, 50 ms clock-read skew allowance for several queues). Non-trivial: >= 20 requests of which at least one was delayed; distinct = distinct op-line sequences."
+	r.Rule = "(a) the rate.Limiter returned by the real CreateRateLimiter for random (I, B) — I from 1 ms to 5 s incl. values that are not a whole number of ms, B from 0 (= default 1) to 10 — driven through ReserveN(t,1).DelayFrom(t) with 20..80 (thorough 100) explicit request times on a millisecond grid in 7 arrival patterns (one burst, faster than I, slower than I, exactly I, bursts with gaps, mixed, random); every delay is compared with the integer model (tolerance 1 us) and the window bound B+ceil(T/I) is checked exactly on the limiter's own grant times for every window; unthrottled configurations (no settings, I = 0, I < 0) must never delay; a few cases with request times going backwards exercise the clamp and are checked against the skew bound B+ceil((T+S)/I). 35 % of these cases take the limiter not from CreateRateLimiter but from a HOOK: the same settings written in a hook configuration together with a random non-empty set of other bindings (onStartup, schedule, kubernetes, kubernetesValidating, kubernetesMutating, kubernetesCustomResourceConversion) and loaded by the real Hook.LoadConfig, whose h.RateLimiter is then driven (op line hookcfg; the bound must hold whatever the other bindings are). (b) settings blocks loaded through the real HookConfig.LoadAndValidate -> CreateRateLimiter -> Limit()/Burst(); (b') corpus: settings + each kind of other binding through Hook.LoadConfig. (c) wall-clock runs (2 quick, 8 thorough) of Hook.RateLimitWait from 1..3 goroutines (queues), start times measured with time.Now(), bound checked with a 40 ms allowance for timer lateness (runtime observation; inconclusive rather than failing when the scheduler was late). (d) ShellOperator.taskHandleHookRun itself (hooks loaded from a generated hooks directory through the real hook manager, `settings` in the hook's --config output) called for queued HookRun tasks from 1..3 goroutines; the hook script logs its own start time; the hook has a random set of other bindings (webhooks included) and every task is for an onStartup, a schedule, a kubernetes event or a kubernetes Synchronization; the bound is checked with a 120 ms allowance for process start-up (2 runs quick, 5 thorough, one of them unthrottled). (e) the operator's queues (7 corpus + 4 quick / 16 thorough runs): 1-2 generated hooks (the first with `settings`, the second with its own settings or none; half of the hooks ALSO have webhook bindings - kubernetesValidating / kubernetesMutating / kubernetesCustomResourceConversion - and 30 % an onStartup binding; for the admission bindings the real initValidatingWebhookManager installs the operator's admission handler and 1-2 admission requests per binding are answered through the real router -> op.taskHandler while the queues work: these executions are not queued and are not counted, the queued ones must keep the bound) with 1-2 schedule bindings in each of 1-3 queues (main and named ones, `queue:` in the hook configuration), schedule events (the real schedule callback of initHookManager) arriving as one burst, a steady stream or at random over ~2.5 intervals and added to the real named queues (NewNamedQueue with the operator's task handler, back-off shortened to 15-40 ms); some bindings FAIL their first 1-3 executions (without allowFailure: the queue retries the task; with allowFailure: no retry), 45 % of the failing ones not with an exit code but because the hook process is KILLED BY A SIGNAL (kill -KILL $$, nothing on stderr - what the OOM killer does); hooks share queues. Every execution START is counted — retries and executions from all queues of the hook — from the time stamps the hook processes write; of each execution the harness knows an interval [lo, hi] containing its grant (lo = the later of: the first event of its binding was queued, the previous execution in the same queue started; hi = its own time stamp), and the bound is checked exactly on every window [lo_i, hi_j] (oracle boundiv; no assumption on process start-up times, S = 0 for a hook living in one queue, 50 ms clock-read skew allowance for several queues). (f) start-up of the WHOLE operator on a fake cluster (3 corpus + 3 quick / 10 thorough runs): one generated hook with `settings` (10 %: without) and 3-6 kubernetes bindings (ConfigMap / Secret / Pod; 15 % of them in a group, 12 % with executeHookOnSynchronization: false, 25 % with a queue of their own), optionally onStartup / schedule / webhook bindings as well; VerifAssembleC01 + VerifStart = the real bootstrapMainQueue, the main queue worker, taskHandleEnableKubernetesBindings (one Synchronization HookRun task per binding, HeadTasks of main) -> taskHandler -> taskHandleHookRun -> Hook.Run, real informers; after the start-up burst 0-4 ConfigMaps are created and the Event executions arrive through ManagerEventsHandler and the bindings' queues. Executions are counted from the hook processes' own first-action time stamps; lo of an execution = the operator's start / the first object creation (Event executions) / the previous execution certainly run by the same queue; oracle boundiv as in (e). Non-trivial: >= 20 requests of which at least one was delayed; distinct = distinct op-line sequences."
 
 	// ---- corpus ----
 	r.One(0, func(c *Case, _ *Rng) {
@@ -458,7 +458,7 @@ func runC18(r *Run) {
 			kinds = append(kinds, "validating")
 		}
 		btypes := []htypes.BindingType{htypes.OnStartup, htypes.Schedule, htypes.OnKubernetesEvent}
-		c.Desc = fmt.Sprintf("operator: taskHandleHookRun, I=%v B=%d, bindings %s, %d queues x %d HookRun tasks (onStartup / schedule / kubernetes events), throttled=%v",
+		c.Desc = fmt.Sprintf("operator: taskHandleHookRun, I=%v B=%d, bindings %s, %d queues x %d HookRun tasks (onStartup / schedule / kubernetes events and Synchronizations), throttled=%v",
 			iv, b, strings.Join(kinds, "+"), queues, per, throttled)
 		dir := filepath.Join(r.Scratch, fmt.Sprintf("c18-op-%d", c.Idx))
 		hooks := filepath.Join(dir, "hooks")
@@ -490,10 +490,16 @@ func runC18(r *Run) {
 			c.Note("binding:" + k)
 		}
 		// the event kind of every task, drawn before the goroutines start (all randomness from rng)
-		plan := make([][]htypes.BindingType, queues)
+		type c18Planned struct {
+			bt   htypes.BindingType
+			sync bool // a kubernetes Synchronization (as taskHandleEnableKubernetesBindings queues them), not an Event
+		}
+		plan := make([][]c18Planned, queues)
 		for q := range plan {
 			for i := 0; i < per; i++ {
-				plan[q] = append(plan[q], PickOne(rng, btypes))
+				pl := c18Planned{bt: PickOne(rng, btypes)}
+				pl.sync = pl.bt == htypes.OnKubernetesEvent && rng.Bool()
+				plan[q] = append(plan[q], pl)
 			}
 		}
 		var wg sync.WaitGroup
@@ -506,17 +512,22 @@ func runC18(r *Run) {
 			go func(q int) {
 				defer wg.Done()
 				for i := 0; i < per; i++ {
-					bt := plan[q][i]
+					bt := plan[q][i].bt
 					bc := bindingcontext.BindingContext{Binding: string(bt)}
 					bc.Metadata.BindingType = bt
 					if bt == htypes.OnKubernetesEvent {
 						bc.Type = kemtypes.TypeEvent
 						bc.WatchEvent = kemtypes.WatchEventAdded
+						if plan[q][i].sync {
+							bc.Type = kemtypes.TypeSynchronization
+							bc.WatchEvent = ""
+						}
 					}
 					t := task.NewTask(task_metadata.HookRun).
 						WithQueueName(fmt.Sprintf("q%d", q)).
 						WithMetadata(task_metadata.HookMetadata{HookName: "hook.sh", BindingType: bt, Binding: string(bt),
-							BindingContext: []bindingcontext.BindingContext{bc}}).
+							ExecuteOnSynchronization: plan[q][i].sync,
+							BindingContext:           []bindingcontext.BindingContext{bc}}).
 						WithQueuedAt(time.Now())
 					mu.Lock()
 					reqs = append(reqs, int64(time.Since(t0)))
@@ -582,8 +593,12 @@ func runC18(r *Run) {
 	})
 
 	// ---- (e) the operator's queues: schedule events -> real named queues -> taskHandler -> hook processes ----
-	r.Cases(10, 5, 5, func(c *Case, rng *Rng) { c18RunQueues(r, c, c18CorpusScenario(c.Idx)) })
+	r.Cases(10, 7, 7, func(c *Case, rng *Rng) { c18RunQueues(r, c, c18CorpusScenario(c.Idx)) })
 	r.Cases(960000, r.N(4, 16), 4, func(c *Case, rng *Rng) { c18RunQueues(r, c, c18RandomScenario(rng)) })
+
+	// ---- (f) start-up of the whole operator on a fake cluster: the burst of Synchronization executions ----
+	r.Cases(20, 3, 3, func(c *Case, rng *Rng) { c18RunStartup(r, c, c18StartupCorpus(c.Idx)) })
+	r.Cases(970000, r.N(3, 10), 3, func(c *Case, rng *Rng) { c18RunStartup(r, c, c18StartupRandom(rng)) })
 }
 
 // c18BoundOK is used only to choose between "check", "report" and "inconclusive" for the wall-clock
@@ -630,6 +645,7 @@ type c18Bind struct {
 	crontab   string // unique: one tick = one event of this binding
 	failFirst int    // the first failFirst executions whose first binding context is this binding fail
 	allowFail bool
+	signal    bool // the failing executions do not exit with a code: the hook process dies from SIGKILL (as under the OOM killer), silently
 }
 
 type c18Hook struct {
@@ -683,6 +699,22 @@ func c18CorpusScenario(idx int) c18Scn {
 				{hook: 0, name: "qa-0", queue: "qa", crontab: c18Crontab(1)},
 				{hook: 0, name: "qb-0", queue: "qb", crontab: c18Crontab(2)}},
 			events:  []c18Event{{0, 0}, {0, 1}, {0, 2}, {60 * time.Millisecond, 0}, {60 * time.Millisecond, 1}, {60 * time.Millisecond, 2}},
+			backoff: 20 * time.Millisecond}
+	case 15:
+		// a hook process that dies from a signal is a started execution like any other: its task fails and is
+		// retried by the queue, and every new process start needs its own token
+		return c18Scn{desc: "corpus: one queue, I=900ms B=2, the hook process is killed by SIGKILL in its first 3 executions (task retried after 20 ms)",
+			hooks:   []c18Hook{{name: "hook0.sh", throttled: true, iv: 900 * time.Millisecond, b: 2}},
+			binds:   []c18Bind{{hook: 0, name: "main-0", queue: "main", crontab: c18Crontab(0), failFirst: 3, signal: true}},
+			events:  []c18Event{{0, 0}},
+			backoff: 20 * time.Millisecond}
+	case 16:
+		// the same with allowFailure (no retry) in two queues: every event's process is killed
+		return c18Scn{desc: "corpus: hook0 (I=500ms B=2) in main and qa, allowFailure, every process of main-0 and the first 2 of qa-0 die from SIGKILL; events at 0, 30 and 60 ms in both",
+			hooks: []c18Hook{{name: "hook0.sh", throttled: true, iv: 500 * time.Millisecond, b: 2}},
+			binds: []c18Bind{{hook: 0, name: "main-0", queue: "main", crontab: c18Crontab(0), failFirst: 100, allowFail: true, signal: true},
+				{hook: 0, name: "qa-0", queue: "qa", crontab: c18Crontab(1), failFirst: 2, allowFail: true, signal: true}},
+			events:  []c18Event{{0, 0}, {0, 1}, {30 * time.Millisecond, 0}, {30 * time.Millisecond, 1}, {60 * time.Millisecond, 0}, {60 * time.Millisecond, 1}},
 			backoff: 20 * time.Millisecond}
 	case 13:
 		// the hook's settings hold whatever other bindings it has: here a webhook next to the queued binding
@@ -763,6 +795,7 @@ func c18RandomScenario(rng *Rng) c18Scn {
 				if rng.Chance(35) {
 					bd.failFirst = rng.Range(1, 3)
 					bd.allowFail = rng.Chance(25)
+					bd.signal = rng.Chance(45)
 				}
 				scn.binds = append(scn.binds, bd)
 			}
@@ -852,14 +885,18 @@ func c18RunQueues(r *Run, c *Case, scn c18Scn) {
 				fmt.Fprintf(&cfg, "  queue: %s\n", bd.queue)
 			}
 			if bd.failFirst > 0 {
-				fmt.Fprintf(&cases, "  %s) lim=%d;;\n", bd.name, bd.failFirst)
+				sig := 0
+				if bd.signal {
+					sig = 1
+				}
+				fmt.Fprintf(&cases, "  %s) lim=%d; sig=%d;;\n", bd.name, bd.failFirst, sig)
 			}
 		}
 		// the very first thing an execution does is to take its start time
 		script := "#!/bin/bash\nif [[ \"${1:-}\" == \"--config\" ]]; then\ncat <<'EOF'\n" + cfg.String() + "EOF\nexit 0\nfi\n" +
 			"ts=$(date +%s%N)\nctx=$(<\"$BINDING_CONTEXT_PATH\")\nre='\"binding\": *\"([^\"]+)\"'\nname=none\n[[ $ctx =~ $re ]] && name=${BASH_REMATCH[1]}\n" +
-			"echo \"$ts $name\" >> " + logOf(hi) + "\n[[ -n \"${VALIDATING_RESPONSE_PATH:-}\" ]] && echo '{\"allowed\":true}' > \"$VALIDATING_RESPONSE_PATH\"\nlim=0\ncase \"$name\" in\n" + cases.String() + "  *) ;;\nesac\n" +
-			"n=$(grep -c \" $name\\$\" " + logOf(hi) + ")\nif (( n <= lim )); then echo 'not yet' >&2; exit 1; fi\nexit 0\n"
+			"echo \"$ts $name\" >> " + logOf(hi) + "\n[[ -n \"${VALIDATING_RESPONSE_PATH:-}\" ]] && echo '{\"allowed\":true}' > \"$VALIDATING_RESPONSE_PATH\"\nlim=0\nsig=0\ncase \"$name\" in\n" + cases.String() + "  *) ;;\nesac\n" +
+			"n=$(grep -c \" $name\\$\" " + logOf(hi) + ")\nif (( n <= lim )); then\n  if (( sig == 1 )); then kill -KILL $$; sleep 5; fi\n  echo 'not yet' >&2; exit 1\nfi\nexit 0\n"
 		_ = writeScript(filepath.Join(hooksDir, h.name), []byte(script), 0o755)
 	}
 	ctx, cancel := context.WithCancel(context.Background())
